@@ -1275,7 +1275,8 @@ udp_ep_init(
 	ep->tx_ring.descs =
 	    NNI_ALLOC_STRUCTS(ep->tx_ring.descs, NNG_UDP_TXQUEUE_LEN);
 	if (ep->tx_ring.descs == NULL) {
-		NNI_FREE_STRUCT(ep);
+		// The endpoint is owned by the dialer or listener, which
+		// calls udp_ep_fini after a failed initialization.
 		return (NNG_ENOMEM);
 	}
 	ep->tx_ring.size = NNG_UDP_TXQUEUE_LEN;
